@@ -342,7 +342,7 @@ impl<'a> Tr<'a> {
                     "usize" => Ok(Ty::Usize),
                     "u8" => Ok(Ty::U8),
                     "char" => Ok(Ty::Char),
-                    "str" => Ok(Ty::Str),
+                    "str" | "String" => Ok(Ty::Str),
                     "Self" => self.self_named(),
                     "Option" if args.len() == 1 => Ok(Ty::Opt(Box::new(self.resolve_ty(args[0])?))),
                     "Result" if args.len() == 2 => {
